@@ -1260,6 +1260,7 @@ struct FailingReader {
     fail_at: Option<usize>,
     /// die with a panic instead of returning an error
     panics: bool,
+    slow: bool,
 }
 
 /// A value whose `Serialize` impl panics when it reaches element `at` (a dying producer body).
@@ -1298,6 +1299,9 @@ impl Read for FailingReader {
             }
             return Ok(0);
         }
+        if self.slow {
+            std::thread::sleep(Duration::from_millis(2));
+        }
         // small reads so that the sink sees many write sizes
         let n = out.len().min(limit - self.pos).min(7);
         out[..n].copy_from_slice(&self.data[self.pos..self.pos + n]);
@@ -1317,11 +1321,15 @@ struct Real {
     fail: Option<usize>,
     depth: usize,
     payload: Vec<u8>,
+    /// `StreamOpts::zstd_level`
+    level: i32,
+    /// the producer body pauses between its writes / reads
+    slow: bool,
 }
 
 fn start_real(r: &Real, zstd: bool) -> SocketAddr {
-    let opts = StreamOpts { chunk_bytes: r.chunk, compression: if zstd { Compression::Zstd } else { Compression::None }, zstd_level: 3, session_depth: r.depth };
-    let (payload, fail, panics) = (r.payload.clone(), r.fail, r.panics);
+    let opts = StreamOpts { chunk_bytes: r.chunk, compression: if zstd { Compression::Zstd } else { Compression::None }, zstd_level: r.level, session_depth: r.depth };
+    let (payload, fail, panics, slow) = (r.payload.clone(), r.fail, r.panics, r.slow);
     let router = if r.kind == 2 {
         Router::new().with_value_stream(move |res: &str| (res == "blob").then(|| PanicSeq { data: payload.clone(), at: fail }), opts)
     } else if r.kind == 1 {
@@ -1334,6 +1342,10 @@ fn start_real(r: &Real, zstd: bool) -> SocketAddr {
                         let n = fail.unwrap_or(payload.len()).min(payload.len());
                         for piece in payload[..n].chunks(5) {
                             w.write_all(piece)?;
+                            if slow {
+                                std::thread::sleep(Duration::from_millis(2));
+                                w.flush()?;
+                            }
                         }
                         if fail.is_some() && panics {
                             panic!("writer body panics");
@@ -1345,7 +1357,7 @@ fn start_real(r: &Real, zstd: bool) -> SocketAddr {
             opts,
         )
     } else {
-        Router::new().with_reader_stream(move |res: &str| (res == "blob").then(|| FailingReader { data: payload.clone(), pos: 0, fail_at: fail, panics }), opts)
+        Router::new().with_reader_stream(move |res: &str| (res == "blob").then(|| FailingReader { data: payload.clone(), pos: 0, fail_at: fail, panics, slow }), opts)
     };
     let server = Server::new(router);
     let l = server.listen("127.0.0.1:0").expect("bind");
@@ -1398,7 +1410,7 @@ impl Ctx {
         let op = format!(
             "real {} {} {} {} {} {} {}",
             idx,
-            ["reader", "writer", "value"][r.kind as usize],
+            format!("{}@l{}{}", ["reader", "writer", "value"][r.kind as usize], r.level, if r.slow { "@slow" } else { "" }),
             r.chunk,
             r.fail.map(|n| format!("{}{}", if r.panics { "p" } else { "" }, n)).unwrap_or("-".into()),
             r.depth,
@@ -2279,7 +2291,7 @@ fn gen_and_run(args: &Args, out: &mut Out, ctx: &mut Ctx) {
                 };
                 for (kind, panics) in modes {
                 let fk = if kind == 2 { f.map(|n| n / 2) } else { f };
-                let r = Real { kind, panics, chunk, fail: fk, depth: rng.below(5) as usize, payload: if kind == 2 { payload[..payload.len() / 2].to_vec() } else { payload.clone() } };
+                let r = Real { kind, panics, chunk, fail: fk, depth: rng.below(5) as usize, payload: if kind == 2 { payload[..payload.len() / 2].to_vec() } else { payload.clone() }, level: 3, slow: false };
                 let (wire, dec) = real_wire(&r, zstd);
                 let mut sc = Script { puller: p, zstd, beve: kind == 2, open: Open::Ok, verify_ok: true, trailer: if p.has_trailer() { 8 } else { 0 }, dest: *rng.pick(&[Dest::None, Dest::Old]), dec, wire, wfault: None, sync_fault: false, ws: false, verify_panics: false, verify_kind: 0, dfault: None, via_ps: false, style: 0 };
                 if p.verifies() && f.is_none() && rng.chance(1, 3) {
@@ -2289,6 +2301,31 @@ fn gen_and_run(args: &Args, out: &mut Out, ctx: &mut Ctx) {
                 ctx.exec_real(out, &next("r"), &r, &sc);
                 }
             }
+        }
+    }
+
+    // (C') the producer-side knobs (`StreamOpts`): chunk sizes 1 … 1 MiB, zstd levels, channel depths 0 … 64,
+    //      payload lengths 0, 1 and around a chunk, slow producers; also the `.beve` puller on a compressed
+    //      value stream
+    let mut real_all = real_pullers.clone();
+    real_all.push(Puller::Beve);
+    for &(chunk, len) in &[(1usize, 0usize), (1, 1), (1, 9), (2, 5), (7, 6), (7, 7), (7, 8), (7, 30), (4096, 4095), (4096, 4097), (4096, 10000), (1 << 20, 0), (1 << 20, 300)] {
+        for &p in &real_all {
+            if !thorough && rng.chance(1, 2) {
+                continue;
+            }
+            let kind: u8 = if p == Puller::Beve { 2 } else { rng.below(3) as u8 };
+            // (an empty compressed content cannot be written on the op line)
+            let zstd = p == Puller::Beve || (rng.chance(1, 3) && (len > 0 || kind == 2));
+            let data: Vec<u8> = rng.bytes(if kind == 2 { len.min(300) } else { len });
+            let fail = if len > 0 && rng.chance(1, 2) { Some(*rng.pick(&[0usize, 1, chunk.min(len) - 1, chunk.min(len), len - 1]).min(&data.len().saturating_sub(1))) } else { None };
+            let r = Real { kind, panics: fail.is_some() && rng.chance(1, 2), chunk, fail, depth: *rng.pick(&[0usize, 1, 2, 64]), payload: data, level: *rng.pick(&[1, 3, 19, -7]), slow: len <= 30 && rng.chance(1, 3) };
+            let (wire, dec) = real_wire(&r, zstd);
+            let stream_len = if kind == 2 { panic_seq_bytes(&r.payload).len() } else { r.payload.len() };
+            let mut sc = Script { puller: p, zstd, beve: kind == 2, open: Open::Ok, verify_ok: !rng.chance(1, 5), trailer: if p.has_trailer() { *rng.pick(&[0usize, 1, stream_len, stream_len + 1]) } else { 0 }, dest: *rng.pick(&[Dest::None, Dest::Old]), dec, wire, wfault: None, sync_fault: false, ws: false, verify_panics: false, verify_kind: 0, dfault: None, via_ps: false, style: 0 };
+            sc.via_ps = !p.is_async() && !p.has_trailer() && rng.chance(1, 2);
+            out.count(&format!("real.chunk.{chunk}"));
+            ctx.exec_real(out, &next("r"), &r, &sc);
         }
     }
 
@@ -2549,7 +2586,7 @@ fn replay(ops: Vec<String>, out: &mut Out, ctx: &mut Ctx) {
             "real" => {
                 if w.len() > 7 {
                     if let Some((sc, _)) = Script::parse(&w[7..]) {
-                        let r = Real { kind: match w[2] { "writer" => 1, "value" => 2, _ => 0 }, panics: w[4].starts_with('p'), chunk: w[3].parse().unwrap_or(16), fail: w[4].trim_start_matches('p').parse().ok(), depth: w[5].parse().unwrap_or(4), payload: unhex(w[6]).unwrap_or_default() };
+                        let r = Real { level: w[2].split('@').find_map(|x| x.strip_prefix('l').and_then(|n| n.parse().ok())).unwrap_or(3), slow: w[2].contains("@slow"), kind: match w[2].split('@').next().unwrap_or("") { "writer" => 1, "value" => 2, _ => 0 }, panics: w[4].starts_with('p'), chunk: w[3].parse().unwrap_or(16), fail: w[4].trim_start_matches('p').parse().ok(), depth: w[5].parse().unwrap_or(4), payload: unhex(w[6]).unwrap_or_default() };
                         ctx.exec_real(out, &idx, &r, &sc);
                     }
                 }
